@@ -284,7 +284,7 @@ func assumptions() {
 	stats.Assume("input rings are simple (star-shaped by construction or lattice points sorted by angle around an interior centre), outer rings wound as requested, holes wound the other way, holes inside their outer ring and pairwise disjoint, polygons of a multi-polygon pairwise disjoint or nested island-in-hole")
 	stats.Assume("random generation keeps 1e-9*(1+scale) away from degenerate contact (ring vertex on the box boundary, ring edge through a box corner); exact degenerate contact is decided on the deterministic grid corpus against the list in known_findings_C16.json")
 	stats.Assume("a region that contains the whole box while no boundary enters the open box is outside the stated domain (smartclip cannot know the side) and is skipped")
-	stats.Assume("open input: start and end strictly outside the box in random generation (exactly on the boundary only in the deterministic cut corpus); entries and exits must alternate around the box, otherwise the completion is undefined and the case is skipped")
+	stats.Assume("open input: start and end strictly outside the box, or exactly on the box boundary (path cut at a crossing, no corner, going straight into / out of the open box); entries and exits must alternate around the box, otherwise the completion is undefined and the case is skipped")
 	stats.Assume("output polygons are taken to be interior-disjoint (the package promises simple OGC geometries): the summed area of the output polygons must equal the area of region ∩ box")
 }
 
@@ -308,6 +308,10 @@ func classify(c Case, an *analysis, group string) bool {
 		stats.Class("orientation:ccw")
 	} else {
 		stats.Class("orientation:cw")
+	}
+	if _, known := knownEntry(keyOpenEnd); known && an.endsOnBoundary > 0 {
+		stats.Excluded(keyOpenEnd)
+		return false
 	}
 	if an.degen {
 		stats.Excluded("degenerate-contact")
@@ -343,6 +347,9 @@ func classify(c Case, an *analysis, group string) bool {
 	if an.startIn {
 		stats.Class("start vertex inside the box (pieces re-joined)")
 	}
+	if an.endsOnBoundary > 0 {
+		stats.Class(fmt.Sprintf("open:%d end point(s) exactly on the box boundary", an.endsOnBoundary))
+	}
 	if an.runs > 0 {
 		stats.NonTrivial(gen.JSON(c))
 		if stats.WantSample(group) {
@@ -370,6 +377,9 @@ func runCase(rt *rapid.T, test string, c Case, group string) {
 			stats.ClassN("query points asked", int64(oc.asked))
 			if oc.outPolys > 1 {
 				stats.Class("output:2+ polygons")
+			}
+			if oc.holeNotFirst {
+				stats.Class("output:2+ polygons and a hole in a polygon other than the first (" + c.Kind + ")")
 			}
 		}
 		return err
@@ -496,6 +506,80 @@ func subPath(r orb.Ring, a, z cutPos) orb.Ring {
 	return append(out, z.p)
 }
 
+// crossing is a point where a closed ring crosses the box boundary, computed in float64 and snapped
+// onto the side it crosses (so that it lies exactly on the boundary).
+type crossing struct {
+	edge  int
+	t     float64
+	p     orb.Point
+	entry bool
+}
+
+// crossings lists the entries and exits of the ring in ring order.
+func crossings(b orb.Bound, r orb.Ring) []crossing {
+	var out []crossing
+	for i := 0; i+1 < len(r); i++ {
+		a, z := r[i], r[i+1]
+		t0, t1 := 0.0, 1.0
+		edim, ldim := -1, -1
+		var eval, lval float64
+		empty := false
+		for dim := 0; dim < 2; dim++ {
+			d := z[dim] - a[dim]
+			lo, hi := b.Min[dim], b.Max[dim]
+			if d == 0 {
+				if a[dim] < lo || a[dim] > hi {
+					empty = true
+				}
+				continue
+			}
+			te, tl, ve, vl := (lo-a[dim])/d, (hi-a[dim])/d, lo, hi
+			if d < 0 {
+				te, tl, ve, vl = tl, te, hi, lo
+			}
+			if te > t0 {
+				t0, edim, eval = te, dim, ve
+			}
+			if tl < t1 {
+				t1, ldim, lval = tl, dim, vl
+			}
+		}
+		if empty || t0 >= t1 {
+			continue
+		}
+		at := func(t float64, dim int, v float64) orb.Point {
+			p := orb.Point{a[0] + t*(z[0]-a[0]), a[1] + t*(z[1]-a[1])}
+			p[dim] = v
+			return p
+		}
+		if edim >= 0 {
+			out = append(out, crossing{i, t0, at(t0, edim, eval), true})
+		}
+		if ldim >= 0 {
+			out = append(out, crossing{i, t1, at(t1, ldim, lval), false})
+		}
+	}
+	return out
+}
+
+// cutAtBox walks the ring from crossing a to crossing z (ring direction): a, the vertices between, z.
+func cutAtBox(r orb.Ring, a, z crossing) orb.Ring {
+	n := len(r) - 1
+	out := orb.Ring{a.p}
+	e := a.edge
+	if z.edge == e && z.t > a.t {
+		return append(out, z.p)
+	}
+	for steps := 0; steps <= n; steps++ {
+		e = (e + 1) % n
+		out = append(out, r[e])
+		if z.edge == e {
+			return append(out, z.p)
+		}
+	}
+	return nil
+}
+
 func TestPropOpen(t *testing.T) {
 	assumptions()
 	stats.Check(t, 80000, 1500000, func(rt *rapid.T) {
@@ -505,6 +589,52 @@ func TestPropOpen(t *testing.T) {
 		}
 		b := c.Box.Bound()
 		r := c.Geom.V.(orb.Ring)
+		if rapid.IntRange(0, 2).Draw(rt, "cut at the box") == 0 {
+			// the path is cut exactly where the ring crosses the box: it starts at an entry and stops at an exit
+			if an, err := analyse(c); err != nil || an.degen {
+				// the ring itself touches the box degenerately: its crossings are not clean cuts
+				stats.Excluded("degenerate-contact")
+				stats.Class("excluded:degenerate contact (ring to be cut at the box)")
+				return
+			}
+			cr := crossings(b, r)
+			var ents, exits []int
+			for i, x := range cr {
+				if x.entry {
+					ents = append(ents, i)
+				} else {
+					exits = append(exits, i)
+				}
+			}
+			if len(ents) == 0 || len(ents) != len(exits) {
+				stats.Class("rejected:ring has no clean crossings to cut at")
+				return
+			}
+			ia := ents[rapid.IntRange(0, len(ents)-1).Draw(rt, "entry")]
+			// the k-th exit after the entry (k = number of pieces kept)
+			k := rapid.IntRange(1, len(exits)).Draw(rt, "pieces")
+			iz, seen := ia, 0
+			for seen < k {
+				iz = (iz + 1) % len(cr)
+				if !cr[iz].entry {
+					seen++
+				}
+			}
+			path := cutAtBox(r, cr[ia], cr[iz])
+			if path == nil || len(path) < 2 || path[0] == path[len(path)-1] {
+				stats.Class("rejected:degenerate sub-path")
+				return
+			}
+			oc := Case{Kind: "open", Box: c.Box, O: c.O, Geom: gen.G{V: path}, Q: c.Q}
+			if k == len(exits) {
+				stats.Class("open:all pieces kept")
+				oc.Full = &gen.G{V: r}
+			} else {
+				stats.Class("open:some pieces dropped")
+			}
+			runCase(rt, "TestPropOpen", oc, "open-cut")
+			return
+		}
 		scale := 0.0
 		for _, p := range r {
 			scale = math.Max(scale, math.Max(math.Abs(p[0]), math.Abs(p[1])))
